@@ -63,6 +63,20 @@ static void mon_net_tx(sim_tx_t *tx, const sdns_query_t *q, const uint8_t *msg, 
   }
   nq->t_last = tx->t;
   nservers   = app_channel ? (int)ares_slist_len(app_channel->servers) : app_cfg.nsrv_cfg;
+  {
+    /* a server-list change moves in-flight queries to the new servers while old and new are both
+     * present: the statement's "servers" is then the number of distinct servers configured at any
+     * time so far (sound, slightly loose) */
+    int k, ever = 0;
+    for (k = 0; k < SIM_MAXSRV; k++) {
+      if (app_srv_ever_mask & (1u << k)) {
+        ever++;
+      }
+    }
+    if (ever > nservers) {
+      nservers = ever;
+    }
+  }
   if (nservers > nq->max_servers) {
     nq->max_servers = nservers;
   }
